@@ -1,7 +1,8 @@
 /-
   Driver for C17.  stdin: `<entries> | <hex line>` per line (entries: `name:n:<hex value>` or
   `name:g:<hex value>`); stdout: `<model observation>\t<spec>`.
-  Observation: `ok <hex of the substituted text>` or `syntax-error`.
+  Observation: `ok <hex of the substituted text> C=<origin chains of its characters, run-length> T=<final table>`
+  or `syntax-error`.
 -/
 import YashModel.Common.Proto
 import YashModel.Alias.Model
@@ -36,9 +37,25 @@ def showTable (T : Table) : String :=
   if sorted.isEmpty then "-" else
   ",".intercalate (sorted.map fun a => s!"{encStr a.name}:{if a.global then "g" else "n"}:{encChars a.value}")
 
-def observe (toks : Toks) (hd : Pending) (text : List Char) (T : Table) : String :=
+/-- origin chain of a character: alias names (hex), innermost first -/
+def showChain (ch : List String) : String :=
+  if ch.isEmpty then "-" else ">".intercalate (ch.map encStr)
+
+/-- run-length form of the per-character origins: `<count>x<chain>` per maximal run -/
+def rle : List (List String) → List (Nat × List String)
+  | [] => []
+  | c :: t =>
+    match rle t with
+    | (n, d) :: r => if c == d then (n + 1, d) :: r else (1, c) :: (n, d) :: r
+    | [] => [(1, c)]
+
+def showOrigins (o : List (List String)) : String :=
+  if o.isEmpty then "-" else ",".intercalate ((rle o).map fun (n, ch) => s!"{n}x{showChain ch}")
+
+def observe (toks : Toks) (hd : Pending) (text : List Char) (origins : List (List String)) (T : Table) : String :=
   -- a here-document whose body was never read (no newline after it) is `MissingHereDocContent`
-  if !validToks toks || !hd.isEmpty then "syntax-error" else s!"ok {encChars text} T={showTable T}"
+  if !validToks toks || !hd.isEmpty then "syntax-error"
+  else s!"ok {encChars text} C={showOrigins origins} T={showTable T}"
 
 /-- step budget of the line machine (the table may change, so `fuelFor` of the initial table is no bound) -/
 def lineFuel (T : Table) (cs : List Char) : Nat := fuelFor T cs + 20000
@@ -49,8 +66,10 @@ def runLine (line : String) : String :=
   | some (T, cs) =>
     let (l, done) := lrun (lineFuel T cs) { T := T, m := init cs }
     if !done then "FUEL\t-" else
-    let hl := hlrun (lineFuel T cs) { T := T, h := { rest := cs } }
-    observe l.m.toks.reverse l.m.hd l.m.text l.finalTable ++ "\t=" ++
-      observe hl.h.toks.reverse hl.h.hd (hl.h.out.reverse ++ hl.h.rest) hl.finalTable
+    -- the by-hand line machine with its origin log (`hlrunC_l`: the log does not change the run)
+    let hc := hlrunC (lineFuel T cs) { l := { T := T, h := { rest := cs } } }
+    let hl := hc.l
+    observe l.m.toks.reverse l.m.hd l.m.text l.m.origins l.finalTable ++ "\t=" ++
+      observe hl.h.toks.reverse hl.h.hd (hl.h.out.reverse ++ hl.h.rest) hc.origins hl.finalTable
 
 def main : IO Unit := YashModel.Proto.mainLoop runLine
